@@ -7,6 +7,7 @@
 // in the set the reference model of a handle (DESIGN 3.2) allows, and the case
 // process must survive (ASan / UBSan / assert = violation).
 #include "common/fw.hpp"
+#include <climits>
 #include "common/harness.hpp"
 #include "common/ledger.hpp"
 #include "common/vtime.hpp"
@@ -317,7 +318,8 @@ CaseResult run_case(Tape &t, long)
         static uint8_t buf[8192];
         int stream = (int) t.weighted({ 1, 6, 6, 1 });  // IN, OUT, ERR, out-of-range
         size_t n = (size_t) t.range(1, 8192);
-        int sv = stream == 3 ? 7 : stream;
+        static const int oor_r[] = { 3, 4, 7, -1, 99, INT_MAX, INT_MIN, 256 };
+        int sv = stream == 3 ? oor_r[t.pick(8)] : stream;
         desc = "read(" + std::to_string(sv) + "," + std::to_string(n) + ")";
         bool valid_stream = stream == 1 || stream == 2;
         if (!use_null && valid_stream && x.st != NOT_STARTED && x.pipe[stream]) {
@@ -354,7 +356,8 @@ CaseResult run_case(Tape &t, long)
       }
       case K_CLOSE: {
         int stream = (int) t.weighted({ 3, 3, 3, 1 });
-        int sv = stream == 3 ? 9 : stream;
+        static const int oor_c[] = { 3, 4, 9, -1, 99, INT_MAX, INT_MIN, 256 };
+        int sv = stream == 3 ? oor_c[t.pick(8)] : stream;
         desc = "close(" + std::to_string(sv) + ")";
         r = reproc_close(p, (REPROC_STREAM) sv);
         if (use_null || stream == 3) {
